@@ -18,7 +18,12 @@ def norm(e, clone_transparent=False):
     if t == 'call':
         if len(e[2]) == 1 and (is_ident_call(e[1]) and (clone_transparent or not e[1].endswith('clone'))):
             return norm(e[2][0], clone_transparent)
-        return ('call', e[1], tuple(norm(a, clone_transparent) for a in e[2]))
+        args = tuple(norm(a, clone_transparent) for a in e[2])
+        # m[MatrixCoordinates::new(r, c)] is m[r][c] (dense.rs Index<MatrixCoordinates>: data[row][col])
+        if e[1].endswith(('ops::index::Index::index', 'ops::index::IndexMut::index_mut')) and len(args) == 2 and args[1][0] == 'call' \
+                and args[1][1].endswith('MatrixCoordinates::new') and len(args[1][2]) == 2:
+            return ('idx', ('call', e[1], (args[0], args[1][2][0])), args[1][2][1])
+        return ('call', e[1], args)
     if t == 'fld' and isinstance(e[1], tuple) and e[1] and e[1][0] == 'down' and str(e[2]) == '0':
         inner = norm(e[1][1], clone_transparent)
         var = e[1][2]
